@@ -26,6 +26,12 @@
     * `std::mem::take(&mut place)` yields the old value and leaves `Default::default()` in the place
       (`[]` for `Vec`, `0` for integers, `false`, `none`);  `x.into()` / `Bytes::from(x)` from `Vec<u8>` to
       `Bytes`, `.to_vec()`, `.clone()` on the supported types are the identity on the representation;
+    * the `octets` cursor types `OctetsMut` / `Octets` and `std::ops::Range<u64>` are replaced by the by-value
+      models of section "octets" below, written after octets-0.3.7 `src/lib.rs` (`put_u!`/`get_u!`/`peek_u!`
+      macros, `put_varint_with_len`, `get_varint`, `get_bytes`, `put_bytes`, `varint_len`, `varint_parse_len`);
+      a `&mut OctetsMut` / `&mut Octets` parameter is threaded through (returned with the result) and is DROPPED
+      when the function returns `Err` (callers discard the cursor on error);
+    * `slice.iter()` / `.iter().rev()` are lists consumed from the front (`next()` = head, keeps the tail);
     * `std::io::Error` is the one-point type `IoError` (external types are mapped by a table in the
       translator's manifest; their content is never inspected by translated code);
     * the translator itself (that it emits the primitive that belongs to each construct) and
@@ -91,6 +97,17 @@ def callMapErr {ε' : Type} (conv : ε' → ε) : Res ε' α → Exec ε ρ α
 def tail : Res ε ρ → Exec ε ρ α
   | .ok r => .ret r
   | .err e => .err e
+  | .panic s => .panic s
+
+/-- `f(x)?` where the error is converted by a translated `impl From<ε'> for ε` (`conv`, itself a
+    translated function, hence `Res`-valued) -/
+def callFrom {ε' : Type} (conv : ε' → Res ε ε) : Res ε' α → Exec ε ρ α
+  | .ok a => .val a
+  | .err e =>
+    match conv e with
+    | .ok e' => .err e'
+    | .err e' => .err e'
+    | .panic s => .panic s
   | .panic s => .panic s
 
 theorem pure_eq (a : α) : (pure a : Exec ε ρ α) = .val a := rfl
@@ -222,5 +239,182 @@ def unwrap (o : Option α) (site : String) : Exec ε ρ α :=
   | some x => .val x
   | none => .panic site
 end lists
+
+
+/-! ### octets (by-value model of octets-0.3.7) and `Range<u64>` -/
+
+/-- `std::ops::Range<u64>` -/
+structure Range where
+  start : Nat
+  «end» : Nat
+  deriving Repr, DecidableEq
+
+/-- `octets::BufferTooShortError` -/
+inductive BufferTooShortError where
+  | mk
+  deriving Repr, DecidableEq
+
+/-- the `len` low bytes of `v`, most significant first (`<$ty>::to_be` + copy of the last `len` bytes) -/
+def beBytes (v : Nat) : Nat → List Nat
+  | 0 => []
+  | k + 1 => v / 256 ^ k % 256 :: beBytes v k
+
+/-- big-endian value of a byte list (`<$ty>::from_be`) -/
+def beVal (l : List Nat) : Nat := l.foldl (fun acc x => acc * 256 + x) 0
+
+/-- `octets::varint_len` -/
+def varint_len {ε : Type} (v : Nat) : Res ε Nat :=
+  if v ≤ 63 then .ok 1
+  else if v ≤ 16383 then .ok 2
+  else if v ≤ 1073741823 then .ok 4
+  else if v ≤ 4611686018427387903 then .ok 8
+  else .panic "octets::varint_len: unreachable!()"
+
+/-- `octets::varint_parse_len` -/
+def varint_parse_len {ε : Type} (first : Nat) : Res ε Nat :=
+  match first >>> 6 with
+  | 0 => .ok 1
+  | 1 => .ok 2
+  | 2 => .ok 4
+  | 3 => .ok 8
+  | _ => .panic "octets::varint_parse_len: unreachable!()"
+
+/-- `octets::OctetsMut<'a>` : the whole buffer and the write offset (`off ≤ buf.len()`) -/
+structure OctetsMut where
+  buf : List Nat
+  off : Nat
+  deriving Repr, DecidableEq
+
+namespace OctetsMut
+/-- `OctetsMut::with_slice` -/
+def with_slice (buf : List Nat) : OctetsMut := ⟨buf, 0⟩
+def cap (b : OctetsMut) : Nat := b.buf.length - b.off
+def len (b : OctetsMut) : Nat := b.buf.length
+def is_empty (b : OctetsMut) : Bool := b.buf.length == 0
+def to_vec (b : OctetsMut) : List Nat := b.buf.drop b.off
+
+/-- `put_u!(self, ty, v, len)`: `BufferTooShortError` when `buf.len() < off + len`, else the bytes are
+    written at `off` and `off += len` -/
+def putBE (b : OctetsMut) (v len : Nat) : Res BufferTooShortError (OctetsMut × Unit) :=
+  if b.buf.length < b.off + len then .err .mk
+  else .ok ({ buf := b.buf.take b.off ++ beBytes v len ++ b.buf.drop (b.off + len), off := b.off + len }, ())
+
+def put_u8 (b : OctetsMut) (v : Nat) := putBE b v 1
+def put_u16 (b : OctetsMut) (v : Nat) := putBE b v 2
+def put_u32 (b : OctetsMut) (v : Nat) := putBE b v 4
+def put_u64 (b : OctetsMut) (v : Nat) := putBE b v 8
+
+/-- `buf[0] |= m` on the slice returned by `put_u!` (it starts at the old offset `at`) -/
+def orAt (b : OctetsMut) («at» m : Nat) : OctetsMut :=
+  match b.buf[«at»]? with
+  | some x => { b with buf := b.buf.set «at» (x ||| m) }
+  | none => b
+
+/-- `put_varint` = `put_varint_with_len(v, varint_len(v))` -/
+def put_varint (b : OctetsMut) (v : Nat) : Res BufferTooShortError (OctetsMut × Unit) :=
+  match (varint_len v : Res BufferTooShortError Nat) with
+  | .panic s => .panic s
+  | .err e => .err e
+  | .ok len =>
+    if b.cap < len then .err .mk
+    else match len with
+      | 1 => put_u8 b (v % 2 ^ 8)
+      | 2 =>
+        match put_u16 b (v % 2 ^ 16) with
+        | .ok (b', _) => .ok (b'.orAt b.off 0x40, ())
+        | .err e => .err e
+        | .panic s => .panic s
+      | 4 =>
+        match put_u32 b (v % 2 ^ 32) with
+        | .ok (b', _) => .ok (b'.orAt b.off 0x80, ())
+        | .err e => .err e
+        | .panic s => .panic s
+      | 8 =>
+        match put_u64 b v with
+        | .ok (b', _) => .ok (b'.orAt b.off 0xc0, ())
+        | .err e => .err e
+        | .panic s => .panic s
+      | _ => .panic "octets::put_varint_with_len: value is too large for varint"
+
+/-- `put_bytes` -/
+def put_bytes (b : OctetsMut) (v : List Nat) : Res BufferTooShortError (OctetsMut × Unit) :=
+  if b.cap < v.length then .err .mk
+  else if v.length = 0 then .ok (b, ())
+  else .ok ({ buf := b.buf.take b.off ++ v ++ b.buf.drop (b.off + v.length), off := b.off + v.length }, ())
+end OctetsMut
+
+/-- `octets::Octets<'a>` : the whole buffer and the read offset -/
+structure Octets where
+  buf : List Nat
+  off : Nat
+  deriving Repr, DecidableEq
+
+namespace Octets
+/-- `Octets::with_slice` -/
+def with_slice (buf : List Nat) : Octets := ⟨buf, 0⟩
+def cap (b : Octets) : Nat := b.buf.length - b.off
+def len (b : Octets) : Nat := b.buf.length
+def is_empty (b : Octets) : Bool := b.buf.length == 0
+def to_vec (b : Octets) : List Nat := b.buf.drop b.off
+
+/-- `peek_u!`: the big-endian value of the next `len` bytes -/
+def peekBE (b : Octets) (len : Nat) : Res BufferTooShortError Nat :=
+  if (b.buf.drop b.off).length < len then .err .mk
+  else .ok (beVal ((b.buf.drop b.off).take len))
+
+/-- `get_u!` = `peek_u!` then `off += len` -/
+def getBE (b : Octets) (len : Nat) : Res BufferTooShortError (Octets × Nat) :=
+  match peekBE b len with
+  | .ok v => .ok ({ b with off := b.off + len }, v)
+  | .err e => .err e
+  | .panic s => .panic s
+
+def get_u8 (b : Octets) := getBE b 1
+def get_u16 (b : Octets) := getBE b 2
+def get_u32 (b : Octets) := getBE b 4
+def get_u64 (b : Octets) := getBE b 8
+
+/-- `get_varint` -/
+def get_varint (b : Octets) : Res BufferTooShortError (Octets × Nat) :=
+  match peekBE b 1 with
+  | .err e => .err e
+  | .panic s => .panic s
+  | .ok first =>
+    match (varint_parse_len first : Res BufferTooShortError Nat) with
+    | .err e => .err e
+    | .panic s => .panic s
+    | .ok len =>
+      if len > b.cap then .err .mk
+      else match len with
+        | 1 => get_u8 b
+        | 2 =>
+          match get_u16 b with
+          | .ok (b', v) => .ok (b', v &&& 0x3fff)
+          | .err e => .err e
+          | .panic s => .panic s
+        | 4 =>
+          match get_u32 b with
+          | .ok (b', v) => .ok (b', v &&& 0x3fffffff)
+          | .err e => .err e
+          | .panic s => .panic s
+        | 8 =>
+          match get_u64 b with
+          | .ok (b', v) => .ok (b', v &&& 0x3fffffffffffffff)
+          | .err e => .err e
+          | .panic s => .panic s
+        | _ => .panic "octets::get_varint: unreachable!()"
+
+/-- `get_bytes(len)`: a sub-cursor over the next `len` bytes -/
+def get_bytes (b : Octets) (len : Nat) : Res BufferTooShortError (Octets × Octets) :=
+  if b.cap < len then .err .mk
+  else .ok ({ b with off := b.off + len }, { buf := (b.buf.drop b.off).take len, off := 0 })
+
+/-- `get_bytes_with_varint_length` -/
+def get_bytes_with_varint_length (b : Octets) : Res BufferTooShortError (Octets × Octets) :=
+  match get_varint b with
+  | .ok (b', len) => get_bytes b' (len % 2 ^ 64)
+  | .err e => .err e
+  | .panic s => .panic s
+end Octets
 
 end RenetVerif.RustSem
